@@ -246,6 +246,22 @@ func c13Ammo(r *R) {
 		conf["continueonerror"] = true
 		coe = true
 	}
+	// the http providers have the option too (the unchanged tree does not act on it in the streaming path: a malformed
+	// entry then still ends the run with an error, which the statement allows as well)
+	httpCoe := false
+	if format != "grpc/json" && format != "generic-json" && w.Draw(4) == 0 {
+		conf["continueonerror"] = true
+		httpCoe = true
+		r.Note("ammo/http-continue-on-error")
+	}
+	// a hostile configuration value next to the hostile file: a negative or absurd maximal ammo size (the option is not
+	// validated) must end in an error or be harmless, never in a panic
+	if format == "grpc/json" && !coe && defect != "oversized-line" && w.Draw(5) == 0 {
+		sz := []int64{-1, -4096, 1 << 62}[w.Draw(3)]
+		conf["maxammosize"] = sz
+		defect += fmt.Sprintf("+max-ammo-size(%d)", sz)
+		mustErr = false
+	}
 	r.Sample(map[string]any{"mode": "ammo", "format": format, "defect": defect, "prefix_entries": k, "preload": preload, "passes": passes, "cancel_after": cancelAfter, "consumers": cons, "read_chunk": plan.ReadChunk, "continue_on_error": coe, "file": clipB(file)})
 	r.Note("ammo/" + format + "/" + defect)
 	if k > 0 {
@@ -275,7 +291,7 @@ func c13Ammo(r *R) {
 		return
 	}
 	failed := out.NewErr != nil || out.RunErr != nil
-	if mustErr && !failed && !coe {
+	if mustErr && !failed && !coe && !httpCoe {
 		r.Fail("not-rejected/"+sig, "the malformed input was accepted without an error: %d items delivered, Run returned nil\nfile: %s", len(out.All), clipB(file))
 	}
 	if k >= 0 && format != "grpc/json" && format != "generic-json" && passes > 0 {
@@ -286,7 +302,7 @@ func c13Ammo(r *R) {
 		}
 		if cons == 1 {
 			for i := 0; i < len(got); i++ {
-				if i >= k*passes && mustErr {
+				if i >= k*passes && mustErr && !httpCoe {
 					r.Fail("delivered-malformed/"+sig, "item %d delivered from the malformed part: %s\nfile: %s", i, got[i].key(), clipB(file))
 					return
 				}
@@ -295,7 +311,7 @@ func c13Ammo(r *R) {
 					return
 				}
 			}
-			if mustErr && len(got) < k && !preload {
+			if mustErr && len(got) < k && !preload && !httpCoe {
 				r.Fail("prefix-dropped/"+sig, "only %d of the %d well-formed entries before the malformed part were delivered (Run error: %v)\nfile: %s", len(got), k, out.RunErr, clipB(file))
 			}
 		}
